@@ -351,68 +351,6 @@ Proof.
 Qed.
 
 (* ------------------------------------------------------------------ read *)
-Lemma split_on_nonempty seps s : split_on seps s <> [].
-Proof.
-  destruct s as [|c r]; cbn; [discriminate|]. destruct (memb c seps); [discriminate|].
-  destruct (split_on seps r); discriminate.
-Qed.
-
-Definition fields_of (seps : str) (o : option str) : list str :=
-  match o with Some x => split_on seps x | None => [] end.
-
-Lemma split_on_break seps x :
-  split_on seps x = fst (break_sep seps x) :: fields_of seps (snd (break_sep seps x)).
-Proof.
-  induction x as [|c r IH]; cbn; [reflexivity|]. destruct (memb c seps); cbn; [reflexivity|].
-  rewrite IH. destruct (break_sep seps r) as [f o]; reflexivity.
-Qed.
-
-Definition sep_plain (seps : str) (c : char) : bool := negb (memb c seps && negb (c =? c_space)).
-
-Lemma join_sp_cons c f fs : join_sp ((c :: f) :: fs) = c :: join_sp (f :: fs).
-Proof. destruct fs; reflexivity. Qed.
-
-Lemma join_split seps x : forallb (sep_plain seps) x = true -> join_sp (split_on seps x) = x.
-Proof.
-  induction x as [|c r IH]; cbn [forallb split_on]; intro H; [reflexivity|].
-  apply andb_true_iff in H as [H1 H2]. specialize (IH H2). unfold sep_plain in H1.
-  destruct (memb c seps) eqn:M.
-  - cbn in H1. apply negb_true_iff, negb_false_iff, N.eqb_eq in H1. subst c.
-    pose proof (split_on_nonempty seps r) as NE. destruct (split_on seps r) as [|y ys]; [congruence|].
-    transitivity (c_space :: join_sp (y :: ys)); [reflexivity|f_equal; exact IH].
-  - pose proof (split_on_nonempty seps r) as NE. destruct (split_on seps r) as [|y ys]; [congruence|].
-    rewrite join_sp_cons. f_equal. exact IH.
-Qed.
-
-Definition rest_plain (seps : str) (k : nat) (o : option str) : Prop :=
-  match rest_after seps k o with Some r => forallb (sep_plain seps) r = true | None => True end.
-
-Lemma R_read_assign seps ns : ns <> [] -> forall c a o, R c a -> rest_plain seps (length ns) o ->
-  R (read_assign c ns (fields_of seps o)) (spec_assign a (combine ns (cut_fields seps (length ns) o))).
-Proof.
-  induction ns as [|n r IH]; intros NE c a o HR HP; [congruence|].
-  destruct r as [|n2 r].
-  - cbn [read_assign length cut_fields combine spec_assign]. unfold rest_plain in HP. cbn in HP.
-    destruct o as [x|]; cbn [fields_of].
-    + rewrite (join_split _ _ HP). now apply R_set_env.
-    + now apply R_set_env.
-  - cbn [length] in *. change (cut_fields seps (S (S (length r))) o)
-      with (match o with
-            | None => [] :: cut_fields seps (S (length r)) None
-            | Some x => let (f, o') := break_sep seps x in f :: cut_fields seps (S (length r)) o'
-            end).
-    change (read_assign c (n :: n2 :: r) (fields_of seps o))
-      with (read_assign (set_env c n (match fields_of seps o with v :: _ => v | [] => [] end)) (n2 :: r) (tl (fields_of seps o))).
-    destruct o as [x|].
-    + cbn [fields_of]. rewrite split_on_break. cbn [tl]. unfold rest_plain in HP.
-      change (rest_after seps (S (S (length r))) (Some x))
-        with (rest_after seps (S (length r)) (snd (break_sep seps x))) in HP.
-      destruct (break_sep seps x) as [f o'] eqn:B. cbn [fst snd] in *. cbn [combine spec_assign].
-      apply (IH ltac:(discriminate) _ _ o'); [now apply R_set_env|exact HP].
-    + cbn [fields_of tl combine spec_assign]. apply (IH ltac:(discriminate) _ _ None); [now apply R_set_env|].
-      unfold rest_plain. clear. generalize (length r). intro k. induction k; cbn; auto.
-Qed.
-
 Definition nosep (seps : str) (c : char) : bool := negb (memb c seps).
 
 Lemma break_none seps x : forall f, break_sep seps x = (f, None) -> x = f /\ forallb (nosep seps) f = true.
@@ -475,32 +413,13 @@ Proof.
     + cbn [fl tl combine spec_assign]. apply (IH ltac:(discriminate) _ _ None). now apply R_set_env.
 Qed.
 
-Lemma ifs_chars_raw c a envs : R c a ->
-  (match aget envs s_IFS, vget a s_IFS with
-   | None, Some (ev, true) => match aget (ghost a) s_IFS with Some lv => negb (str_eqb lv ev) | None => false end
-   | _, _ => false
-   end) = false ->
-  ifs_chars c envs = spec_ifs a envs.
+Lemma ifs_chars_raw c a envs : R c a -> shadow_free a -> ifs_chars c envs = spec_ifs a envs.
 Proof.
-  intros (R1 & R2 & _) K. unfold ifs_chars, spec_ifs, get_env.
+  intros (R1 & R2 & _) SF. unfold ifs_chars, spec_ifs, get_env.
   destruct (aget envs s_IFS) as [x|]; [reflexivity|].
-  rewrite (R2 s_IFS), (R1 s_IFS). destruct (vget a s_IFS) as [[v [|]]|]; try reflexivity.
-  destruct (aget (ghost a) s_IFS) as [lv|]; [|reflexivity].
-  apply negb_false_iff, str_eqb_eq in K. now subst.
+  rewrite (R2 s_IFS), (R1 s_IFS). unfold shadow_free, is_exported in SF.
+  destruct (vget a s_IFS) as [[v [|]]|]; try reflexivity. now rewrite (SF eq_refl).
 Qed.
-
-Lemma ifs_chars_spec c a envs : R c a ->
-  (match aget envs s_IFS, vget a s_IFS with
-   | None, Some (ev, true) => match aget (ghost a) s_IFS with Some lv => negb (str_eqb lv ev) | None => false end
-   | _, _ => false
-   end) = false ->
-  (if is_empty (ifs_chars c envs) then default_seps else ifs_chars c envs) = spec_seps a envs.
-Proof. intros HR K. unfold spec_seps. now rewrite (ifs_chars_raw c a envs HR K). Qed.
-
-Lemma split_into_fields_eq c line envs :
-  split_into_fields c line envs =
-  split_on (if is_empty (ifs_chars c envs) then default_seps else ifs_chars c envs) line.
-Proof. unfold split_into_fields. cbv zeta. destruct (is_empty (ifs_chars c envs)); reflexivity. Qed.
 
 Lemma split_into_fields_n_eq c line envs k :
   split_into_fields_n c line envs k =
@@ -538,33 +457,26 @@ Proof.
   induction l as [|y r IH]; cbn; [tauto|]. intros H x [E|E]; apply orb_false_iff in H as [H1 H2]; [now subst|now apply IH].
 Qed.
 
-Lemma sep_plain_neg seps r :
-  existsb (fun c => memb c seps && negb (c =? c_space)) r = false -> forallb (sep_plain seps) r = true.
-Proof.
-  induction r as [|c r IH]; cbn; [reflexivity|]. intro H. apply orb_false_iff in H as [H1 H2].
-  unfold sep_plain at 1. rewrite H1. cbn. now apply IH.
-Qed.
-
 Lemma drain_stop x r acc : split_env_loose x = None -> drain (plain x :: r) acc = (acc, plain x :: r).
 Proof. intro H. unfold plain. cbn [drain tag_none]. now rewrite H. Qed.
 
-Definition dispatch (fx : fixes) (w : world) (c : st) (envs : alist) (x : str) (r : list token) (here : option str) : st * outcome :=
+Definition dispatch (w : world) (c : st) (envs : alist) (x : str) (r : list token) (here : option str) : st * outcome :=
   let rest := (TNone, x) :: r in
   if str_eqb x s_cd then cd_run w c rest
   else if str_eqb x s_export then let (s', ok) := export_loop w c rest in (s', OStatus ok)
-  else if str_eqb x s_read then read_run fx c envs rest here
+  else if str_eqb x s_read then read_run c envs rest here
   else if str_eqb x s_unset then unset_run c rest
   else (c, OChild (map snd rest) (child_env (envp c) envs) (cwd c)).
 
-Lemma run_proc_cmd fx w c ps x r here : wf_prefix ps = true -> split_env_loose x = None ->
-  run_proc fx w c (map asg_token ps ++ plain x :: r) here = dispatch fx w c (map asg_pair ps) x r here.
+Lemma run_proc_cmd w c ps x r here : wf_prefix ps = true -> split_env_loose x = None ->
+  run_proc w c (map asg_token ps ++ plain x :: r) here = dispatch w c (map asg_pair ps) x r here.
 Proof.
   intros H1 H2. unfold run_proc. rewrite (drain_render _ _ H1), (drain_stop _ _ _ H2). reflexivity.
 Qed.
 
-Lemma run_proc_cmd0 fx w c x r here : split_env_loose x = None ->
-  run_proc fx w c (plain x :: r) here = dispatch fx w c [] x r here.
-Proof. intro H. apply (run_proc_cmd fx w c [] x r here eq_refl H). Qed.
+Lemma run_proc_cmd0 w c x r here : split_env_loose x = None ->
+  run_proc w c (plain x :: r) here = dispatch w c [] x r here.
+Proof. intro H. apply (run_proc_cmd w c [] x r here eq_refl H). Qed.
 
 Ltac cd_tail w full c a :=
   destruct (w_exists w full); cbn [negb]; [|first [discriminate | split; [assumption|reflexivity]]];
@@ -575,18 +487,18 @@ Ltac cd_tail w full c a :=
   [now apply R_same
   |apply (R_dirs (env_set c s_PWD d) (spec_setenv1 a s_PWD d) d (acwd a)); now apply R_env_set].
 
-Theorem sim_step fx w c a o : R c a -> wf_op o = true -> known fx a o = None ->
-  R (fst (step fx w c (render o))) (fst (spec_step fx w a o)) /\
-  obs_ok (snd (spec_step fx w a o)) (snd (step fx w c (render o))).
+Theorem sim_step w c a o : R c a -> shadow_free a -> wf_op o = true ->
+  R (fst (step w c (render o))) (fst (spec_step w a o)) /\
+  obs_ok (snd (spec_step w a o)) (snd (step w c (render o))).
 Proof.
-  intros HR WF K. destruct o as [ps|ps prog args|ps|n|ps names line|arg|n]; cbn [render step spec_step wf_op] in *.
+  intros HR SF WF. destruct o as [ps|ps prog args|ps|n|ps names line|arg|n]; cbn [render step spec_step wf_op] in *.
   - (* Assign *)
     apply andb_true_iff in WF as [WF _]. unfold run_proc.
     rewrite <- (app_nil_r (map asg_token ps)), (drain_render _ _ WF). cbn [drain fst snd].
     split; [now apply R_set_shell_vars|reflexivity].
   - (* Prefixed *)
     apply andb_true_iff in WF as [WF W3]. apply andb_true_iff in WF as [WF W2].
-    destruct (split_env_loose prog) eqn:SP; [discriminate|]. rewrite (run_proc_cmd fx w c ps prog args None WF SP). unfold dispatch.
+    destruct (split_env_loose prog) eqn:SP; [discriminate|]. rewrite (run_proc_cmd w c ps prog args None WF SP). unfold dispatch.
     unfold is_modelled_builtin in W2. apply negb_true_iff in W2.
     apply orb_false_iff in W2 as [W2 Wu]. apply orb_false_iff in W2 as [W2 Wr]. apply orb_false_iff in W2 as [Wc We].
     rewrite Wc, We, Wr, Wu. cbn [fst snd obs_ok map]. split; [assumption|].
@@ -606,7 +518,7 @@ Proof.
     change (str_eqb s_unset s_read) with false. rewrite str_eqb_refl. cbn iota. cbn [unset_run].
     destruct (R_remove c a n HR (valid_ident_unset _ WF)) as [E HR']. rewrite E. cbn [fst snd]. split; [assumption|reflexivity].
   - (* Read *)
-    apply andb_true_iff in WF as [WF WN]. rewrite (run_proc_cmd fx w c ps s_read (map plain names) (Some line) WF eq_refl). unfold dispatch.
+    apply andb_true_iff in WF as [WF WN]. rewrite (run_proc_cmd w c ps s_read (map plain names) (Some line) WF eq_refl). unfold dispatch.
     change (str_eqb s_read s_cd) with false. change (str_eqb s_read s_export) with false. rewrite str_eqb_refl. cbn iota.
     unfold read_run. cbn [tl].
     assert (NS : (match map plain names with [] => [s_REPLY] | t :: l => map snd (t :: l) end) = read_names names)
@@ -614,21 +526,12 @@ Proof.
     rewrite NS.
     assert (VN : forallb valid_ident (read_names names) = true) by (destruct names; [reflexivity|exact WN]).
     rewrite VN. cbn [negb fst snd]. split; [|reflexivity].
-    unfold known in K. set (pp := map asg_pair ps) in *.
-    destruct (match aget pp s_IFS, vget a s_IFS with
-              | None, Some (ev, true) => match aget (ghost a) s_IFS with Some lv => negb (str_eqb lv ev) | None => false end
-              | _, _ => false end) eqn:SH; [discriminate|].
+    set (pp := map asg_pair ps).
     unfold spec_read. fold (input_line line).
-    destruct (fx_read fx).
-    + rewrite split_into_fields_n_eq, (ifs_chars_spec c a pp HR SH), (ifs_chars_raw c a pp HR SH).
-      change (fields_loop (is_empty (spec_ifs a pp)) (spec_seps a pp) (length (read_names names)) (input_line line))
-        with (fl (is_empty (spec_ifs a pp)) (spec_seps a pp) (length (read_names names)) (Some (input_line line))).
-      apply R_read_assign_n; [destruct names; discriminate|assumption].
-    + rewrite split_into_fields_eq, (ifs_chars_spec c a pp HR SH).
-      change (split_on (spec_seps a pp) (input_line line)) with (fields_of (spec_seps a pp) (Some (input_line line))).
-      apply R_read_assign; [destruct names; discriminate|assumption|].
-      unfold rest_plain. destruct (rest_after (spec_seps a pp) (length (read_names names)) (Some (input_line line))) as [r|]; [|exact I].
-      apply sep_plain_neg. destruct (existsb _ r); [discriminate|reflexivity].
+    rewrite split_into_fields_n_eq, (ifs_chars_raw c a pp HR SF). fold (spec_seps a pp).
+    change (fields_loop (is_empty (spec_ifs a pp)) (spec_seps a pp) (length (read_names names)) (input_line line))
+      with (fl (is_empty (spec_ifs a pp)) (spec_seps a pp) (length (read_names names)) (Some (input_line line))).
+    apply R_read_assign_n; [destruct names; discriminate|assumption].
   - (* Cd *)
     destruct HR as (R1 & R2 & R3 & R4 & R5).
     assert (HR : R c a) by (repeat split; assumption).
@@ -648,10 +551,10 @@ Proof.
         -- cd_tail w x c a.
         -- cd_tail w (acwd a ++ c_slash :: x) c a.
     + rewrite run_proc_cmd0 by reflexivity. unfold dispatch, plain. rewrite str_eqb_refl. cbn iota.
-      unfold known in K. unfold cd_run, spec_cd. cbn [map snd length N.of_nat Pos.of_succ_nat N.ltb N.compare Pos.compare Pos.compare_cont Nat.eqb].
+      unfold cd_run, spec_cd. cbn [map snd length N.of_nat Pos.of_succ_nat N.ltb N.compare Pos.compare Pos.compare_cont Nat.eqb].
       assert (EL : expand_lookup c s_HOME = match vget a s_HOME with Some (v, _) => Some v | None => None end).
       { unfold expand_lookup, get_env. rewrite (R1 s_HOME), (R2 s_HOME). destruct (vget a s_HOME) as [[x [|]]|]; reflexivity. }
-      rewrite EL, R4, R5. unfold cd_target. clear EL K.
+      rewrite EL, R4, R5. unfold cd_target. clear EL.
       destruct (vget a s_HOME) as [[h b]|]; [|split; [assumption|reflexivity]].
       unfold join_path, resolve.
       destruct (str_eqb h s_dash).
@@ -666,23 +569,6 @@ Proof.
     destruct (vget a n) as [[x [|]]|]; reflexivity.
 Qed.
 
-(* ------------------------------------------------------------------ histories *)
-Theorem sim_hist fx w : forall ops c a, R c a -> forallb wf_op ops = true -> known_hist fx w a ops = false ->
-  R (fst (run_hist fx w c (map render ops))) (fst (spec_hist fx w a ops)) /\
-  Forall2 obs_ok (snd (spec_hist fx w a ops)) (snd (run_hist fx w c (map render ops))).
-Proof.
-  induction ops as [|o r IH]; intros c a HR WF K; cbn [map run_hist spec_hist known_hist forallb] in *.
-  - split; [assumption|constructor].
-  - apply andb_true_iff in WF as [W1 W2]. apply orb_false_iff in K as [K1 K2].
-    unfold is_known in K1. destruct (known fx a o) eqn:Kn; [discriminate|].
-    destruct (sim_step fx w c a o HR W1 Kn) as [HR' HO].
-    destruct (step fx w c (render o)) as [c1 out]. destruct (spec_step fx w a o) as [a1 so]. cbn [fst snd] in *.
-    specialize (IH c1 a1 HR' W2 K2).
-    destruct (run_hist fx w c1 (map render r)) as [c2 outs]. destruct (spec_hist fx w a1 r) as [a2 sos]. cbn [fst snd] in *.
-    destruct out; try (destruct IH as [I1 I2]; split; [assumption|constructor; assumption]).
-    destruct so; contradiction.
-Qed.
-
 Lemma Forall2_nth_ok {A B} (P : A -> B -> Prop) l1 l2 : Forall2 P l1 l2 ->
   forall n d1 d2, (n < length l1)%nat -> P (nth n l1 d1) (nth n l2 d2).
 Proof.
@@ -690,12 +576,71 @@ Proof.
   destruct n; [assumption|]. apply IH. lia.
 Qed.
 
-Theorem partial_from_abs fx w c ops : NoDup (map fst (envp c)) -> forallb wf_op ops = true ->
-  known_hist fx w (abs c) ops = false ->
-  Forall2 obs_ok (snd (spec_hist fx w (abs c) ops)) (snd (run_hist fx w c (map render ops))) /\
-  R (fst (run_hist fx w c (map render ops))) (fst (spec_hist fx w (abs c) ops)).
+(* ------------------------------------------------------------------ the invariant, histories *)
+Lemma assign1_shadow_free a m v : shadow_free a -> shadow_free (spec_assign1 a m v).
 Proof.
-  intros H1 H2 H3. destruct (sim_hist fx w ops c (abs c) (R_abs c H1) H2 H3) as [A B]. split; assumption.
+  unfold shadow_free, spec_assign1, is_exported, vget; cbn [vars ghost]. intros H. rewrite aget_aset.
+  sdes m s_IFS; [|exact H]. intro E. apply H. destruct (aget (vars a) s_IFS) as [[x [|]]|]; congruence.
+Qed.
+
+Lemma assign_shadow_free ps : forall a, shadow_free a -> shadow_free (spec_assign a ps).
+Proof. induction ps as [|[m v] r IH]; intros a H; cbn; [exact H|]. apply IH. now apply assign1_shadow_free. Qed.
+
+Lemma export1_shadow_free a m v : shadow_free a -> shadow_free (spec_export1 a m v).
+Proof.
+  intros H. unfold shadow_free, spec_export1, is_exported, vget in *. cbn [vars ghost].
+  rewrite aget_aset, aget_adel. sdes m s_IFS; [reflexivity|exact H].
+Qed.
+
+Lemma export_shadow_free ps : forall a, shadow_free a -> shadow_free (spec_export a ps).
+Proof. induction ps as [|[m v] r IH]; intros a H; cbn; [exact H|]. apply IH. now apply export1_shadow_free. Qed.
+
+Lemma step_shadow_free w a o : shadow_free a -> shadow_free (fst (spec_step w a o)).
+Proof.
+  intros H. destruct o as [ps|ps prog args|ps|n|ps names line|arg|n]; cbn [spec_step fst]; try assumption.
+  - now apply assign_shadow_free.
+  - now apply export_shadow_free.
+  - unfold shadow_free, spec_unset1, is_exported, vget in *; cbn [vars ghost]. rewrite !aget_adel.
+    sdes n s_IFS; [discriminate|exact H].
+  - unfold spec_read. now apply assign_shadow_free.
+  - unfold spec_cd. destruct (cd_target a arg) as [full|]; [|exact H]. destruct (resolve w full) as [d|]; [|exact H].
+    destruct (str_eqb (acwd a) d); [exact H|]. cbn [fst].
+    unfold shadow_free, spec_setenv1, is_exported, vget in *; cbn [vars ghost].
+    rewrite aget_aset. change (str_eqb s_PWD s_IFS) with false. cbn iota. intro E. specialize (H E).
+    destruct (aget (vars a) s_PWD) as [[x [|]]|]; [exact H| |].
+    + rewrite aget_aset. change (str_eqb s_PWD s_IFS) with false. exact H.
+    + rewrite aget_adel. change (str_eqb s_PWD s_IFS) with false. exact H.
+Qed.
+
+Lemma abs_shadow_free c : (aget (envp c) s_IFS <> None -> aget (locals c) s_IFS = None) -> shadow_free (abs c).
+Proof.
+  intro HS. unfold shadow_free, is_exported, abs, vget; cbn [vars ghost]. rewrite aget_app, aget_map_tag.
+  destruct (aget (envp c) s_IFS) as [v|]; [intros _; apply HS; discriminate|].
+  rewrite aget_map_tag. destruct (aget (locals c) s_IFS); discriminate.
+Qed.
+
+Theorem sim_hist w : forall ops c a, R c a -> shadow_free a -> forallb wf_op ops = true ->
+  R (fst (run_hist w c (map render ops))) (fst (spec_hist w a ops)) /\
+  Forall2 obs_ok (snd (spec_hist w a ops)) (snd (run_hist w c (map render ops))).
+Proof.
+  induction ops as [|o r IH]; intros c a HR SF WF; cbn [map run_hist spec_hist forallb] in *.
+  - split; [assumption|constructor].
+  - apply andb_true_iff in WF as [W1 W2].
+    destruct (sim_step w c a o HR SF W1) as [HR' HO]. pose proof (step_shadow_free w a o SF) as SF'.
+    destruct (step w c (render o)) as [c1 out]. destruct (spec_step w a o) as [a1 so]. cbn [fst snd] in *.
+    specialize (IH c1 a1 HR' SF' W2).
+    destruct (run_hist w c1 (map render r)) as [c2 outs]. destruct (spec_hist w a1 r) as [a2 sos]. cbn [fst snd] in *.
+    destruct out; try (destruct IH as [I1 I2]; split; [assumption|constructor; assumption]).
+    destruct so; contradiction.
+Qed.
+
+Theorem full_from_abs w c ops :
+  NoDup (map fst (envp c)) -> (aget (envp c) s_IFS <> None -> aget (locals c) s_IFS = None) ->
+  forallb wf_op ops = true ->
+  Forall2 obs_ok (snd (spec_hist w (abs c) ops)) (snd (run_hist w c (map render ops))) /\
+  R (fst (run_hist w c (map render ops))) (fst (spec_hist w (abs c) ops)).
+Proof.
+  intros H1 HS H2. destruct (sim_hist w ops c (abs c) (R_abs c H1) (abs_shadow_free c HS) H2) as [A B]. split; assumption.
 Qed.
 
 (* ------------------------------------------------------------------ $PWD follows the working directory *)
@@ -729,7 +674,7 @@ Proof.
   cbn in *. apply orb_false_iff in H as [H1 H2]. rewrite H1. cbn. now apply IH.
 Qed.
 
-Lemma spec_step_pwd fx w a o : pwd_ok a -> touches s_PWD o = false -> pwd_ok (fst (spec_step fx w a o)).
+Lemma spec_step_pwd w a o : pwd_ok a -> touches s_PWD o = false -> pwd_ok (fst (spec_step w a o)).
 Proof.
   unfold pwd_ok. intros P T. destruct o as [ps|ps prog args|ps|n|ps names line|arg|n]; cbn [spec_step fst touches] in *; try assumption.
   - destruct (spec_assign_keep (map asg_pair ps) a s_PWD) as [E1 E2]; [now rewrite existsb_map_eq|]. now rewrite E1, E2.
@@ -743,91 +688,26 @@ Proof.
     now rewrite aget_aset, str_eqb_refl.
 Qed.
 
-Lemma spec_hist_pwd fx w : forall ops a, pwd_ok a -> forallb (fun o => negb (touches s_PWD o)) ops = true ->
-  pwd_ok (fst (spec_hist fx w a ops)).
+Lemma spec_hist_pwd w : forall ops a, pwd_ok a -> forallb (fun o => negb (touches s_PWD o)) ops = true ->
+  pwd_ok (fst (spec_hist w a ops)).
 Proof.
   induction ops as [|o r IH]; intros a P T; cbn [spec_hist forallb] in *; [exact P|].
   apply andb_true_iff in T as [T1 T2]. apply negb_true_iff in T1.
-  pose proof (spec_step_pwd fx w a o P T1) as P1. destruct (spec_step fx w a o) as [a1 so]. cbn [fst] in P1.
-  specialize (IH a1 P1 T2). destruct (spec_hist fx w a1 r) as [a2 sos]. exact IH.
+  pose proof (spec_step_pwd w a o P T1) as P1. destruct (spec_step w a o) as [a1 so]. cbn [fst] in P1.
+  specialize (IH a1 P1 T2). destruct (spec_hist w a1 r) as [a2 sos]. exact IH.
 Qed.
 
-Theorem pwd_follows_cwd fx w c ops :
-  NoDup (map fst (envp c)) -> forallb wf_op ops = true -> known_hist fx w (abs c) ops = false ->
-  aget (envp c) s_PWD = Some (cwd c) -> forallb (fun o => negb (touches s_PWD o)) ops = true ->
-  let c' := fst (run_hist fx w c (map render ops)) in expand_lookup c' s_PWD = Some (cwd c').
-Proof.
-  intros H1 H2 H3 HP HT. destruct (partial_from_abs fx w c ops H1 H2 H3) as [_ HR].
-  assert (P0 : pwd_ok (abs c)).
-  { unfold pwd_ok, abs, vget; cbn [vars acwd]. now rewrite aget_app, aget_map_tag, HP. }
-  pose proof (spec_hist_pwd fx w ops (abs c) P0 HT) as P. cbv zeta.
-  destruct HR as (R1 & _ & _ & R4 & _). unfold expand_lookup. rewrite (R1 s_PWD), P, R4. reflexivity.
-Qed.
-
-(* ------------------------------------------------------------------ after the three proposed repairs *)
-(** With export removing the shell-local binding, an exported IFS never has a stale local
-    value behind it; with all three repairs no known class is left. *)
-Definition shadow_free (a : ast) : Prop := is_exported a s_IFS = true -> aget (ghost a) s_IFS = None.
-
-Lemma assign1_shadow_free a m v : shadow_free a -> shadow_free (spec_assign1 a m v).
-Proof.
-  unfold shadow_free, spec_assign1, is_exported, vget; cbn [vars ghost]. intros H. rewrite aget_aset.
-  sdes m s_IFS; [|exact H]. intro E. apply H. destruct (aget (vars a) s_IFS) as [[x [|]]|]; congruence.
-Qed.
-
-Lemma assign_shadow_free ps : forall a, shadow_free a -> shadow_free (spec_assign a ps).
-Proof. induction ps as [|[m v] r IH]; intros a H; cbn; [exact H|]. apply IH. now apply assign1_shadow_free. Qed.
-
-Lemma export1_shadow_free a m v : shadow_free a -> shadow_free (spec_export1 a m v).
-Proof.
-  intros H. unfold shadow_free, spec_export1, is_exported, vget in *. cbn [vars ghost].
-  rewrite aget_aset, aget_adel. sdes m s_IFS; [reflexivity|exact H].
-Qed.
-
-Lemma export_shadow_free ps : forall a, shadow_free a -> shadow_free (spec_export a ps).
-Proof. induction ps as [|[m v] r IH]; intros a H; cbn; [exact H|]. apply IH. now apply export1_shadow_free. Qed.
-
-Lemma step_shadow_free fx w a o : shadow_free a -> shadow_free (fst (spec_step fx w a o)).
-Proof.
-  intros H. destruct o as [ps|ps prog args|ps|n|ps names line|arg|n]; cbn [spec_step fst]; try assumption.
-  - now apply assign_shadow_free.
-  - now apply export_shadow_free.
-  - unfold shadow_free, spec_unset1, is_exported, vget in *; cbn [vars ghost]. rewrite !aget_adel.
-    sdes n s_IFS; [discriminate|exact H].
-  - unfold spec_read. now apply assign_shadow_free.
-  - unfold spec_cd. destruct (cd_target a arg) as [full|]; [|exact H]. destruct (resolve w full) as [d|]; [|exact H].
-    destruct (str_eqb (acwd a) d); [exact H|]. cbn [fst].
-    unfold shadow_free, spec_setenv1, is_exported, vget in *; cbn [vars ghost].
-    rewrite aget_aset. change (str_eqb s_PWD s_IFS) with false. cbn iota. intro E. specialize (H E).
-    destruct (aget (vars a) s_PWD) as [[x [|]]|]; [exact H| |].
-    + rewrite aget_aset. change (str_eqb s_PWD s_IFS) with false. exact H.
-    + rewrite aget_adel. change (str_eqb s_PWD s_IFS) with false. exact H.
-Qed.
-
-Definition fx_all : fixes := mkfx true.
-
-Lemma known_none_all a o : shadow_free a -> known fx_all a o = None.
-Proof.
-  intro H. destruct o as [ps|ps prog args|ps|n|ps names line|arg|n]; cbn [known fx_all fx_read]; try reflexivity.
-  - unfold shadow_free, is_exported in H. destruct (aget (map asg_pair ps) s_IFS); [reflexivity|].
-    destruct (vget a s_IFS) as [[ev [|]]|]; try reflexivity. now rewrite (H eq_refl).
-Qed.
-
-Lemma known_hist_none_all w : forall ops a, shadow_free a -> known_hist fx_all w a ops = false.
-Proof.
-  induction ops as [|o r IH]; intros a H; cbn [known_hist]; [reflexivity|].
-  unfold is_known. rewrite (known_none_all a o H). cbn [orb]. apply IH. now apply step_shadow_free.
-Qed.
-
-Theorem full_after_repairs w c ops :
+Theorem pwd_follows_cwd w c ops :
   NoDup (map fst (envp c)) -> (aget (envp c) s_IFS <> None -> aget (locals c) s_IFS = None) ->
   forallb wf_op ops = true ->
-  Forall2 obs_ok (snd (spec_hist fx_all w (abs c) ops)) (snd (run_hist fx_all w c (map render ops))).
+  aget (envp c) s_PWD = Some (cwd c) -> forallb (fun o => negb (touches s_PWD o)) ops = true ->
+  let c' := fst (run_hist w c (map render ops)) in expand_lookup c' s_PWD = Some (cwd c').
 Proof.
-  intros H1 HS H2. apply (partial_from_abs fx_all w c ops H1 H2). apply known_hist_none_all.
-  unfold shadow_free, is_exported, abs, vget; cbn [vars ghost]. rewrite aget_app, aget_map_tag.
-  destruct (aget (envp c) s_IFS) as [v|]; [intros _; apply HS; discriminate|].
-  rewrite aget_map_tag. destruct (aget (locals c) s_IFS); discriminate.
+  intros H1 HS H2 HP HT. destruct (full_from_abs w c ops H1 HS H2) as [_ HR].
+  assert (P0 : pwd_ok (abs c)).
+  { unfold pwd_ok, abs, vget; cbn [vars acwd]. now rewrite aget_app, aget_map_tag, HP. }
+  pose proof (spec_hist_pwd w ops (abs c) P0 HT) as P. cbv zeta.
+  destruct HR as (R1 & _ & _ & R4 & _). unfold expand_lookup. rewrite (R1 s_PWD), P, R4. reflexivity.
 Qed.
 
 (* ------------------------------------------------------------------ the remainder is a piece of the line *)
